@@ -709,6 +709,10 @@ func (r *reedSolomon) Update(shards [][]byte, newDatashards [][]byte) error {
 		return err
 	}
 
+	if shardSize(newDatashards) != shardSize(shards) {
+		return ErrShardSize
+	}
+
 	for i := range newDatashards {
 		if newDatashards[i] != nil && shards[i] == nil {
 			return ErrInvalidInput
